@@ -216,4 +216,20 @@ def wrf (w : WStats) : Rat := (w.common.map absR).sum + w.tree1.sum + w.tree2.su
 def kf2 (w : WStats) : Rat :=
   (w.common.map fun d => d * d).sum + (w.tree1.map fun d => d * d).sum + (w.tree2.map fun d => d * d).sum
 
+/- ## `gotree compare edges`, `gotree compare tips` (cmd/compareedges.go, cmd/comparetips.go) -/
+
+/-- one row of `compare edges` for a branch of the reference: terminal, topological depth
+    (tips on the lighter side), found (= transfer distance 0 to some branch of the compared
+    tree, i.e. a branch with an `EqualOrComplement` bitset) -/
+def edgeRow (r c : T) (s : SplitE) : Bool × Nat × Bool :=
+  (s.tip, min s.below.length (r.tipNames.length - s.below.length),
+   c.splits.any fun e2 => eqOrCompl (key r.tipNames s) (key c.tipNames e2))
+
+def edgeRows (r c : T) : List (Bool × Nat × Bool) := r.splits.map (edgeRow r c)
+
+/-- `compare tips`: names only in the first list (`<`), only in the second (`>`), number of
+    names of the first found in the second (`=`) -/
+def tipsDiff (a b : List String) : List String × List String × Nat :=
+  (a.filter fun x => !b.contains x, b.filter fun x => !a.contains x, (a.filter fun x => b.contains x).length)
+
 end Gotree.C08
